@@ -105,6 +105,45 @@ class _NoneFold(ast.NodeTransformer):
         return node
 
 
+class _AttrOps(ast.NodeTransformer):
+    """operator.eq(*(a, b)) -> a == b after a row has been substituted"""
+
+    OPS = {"eq": ast.Eq, "ne": ast.NotEq, "is_": ast.Is, "is_not": ast.IsNot}
+
+    def visit_Call(self, node):
+        self.generic_visit(node)
+        nm = ast.unparse(node.func)
+        if nm.startswith("operator.") and nm.split(".", 1)[1] in self.OPS and not node.keywords:
+            args = node.args
+            if len(args) == 1 and isinstance(args[0], ast.Starred) and isinstance(args[0].value, (ast.Tuple, ast.List)) and len(args[0].value.elts) == 2:
+                args = args[0].value.elts
+            if len(args) == 2 and not any(isinstance(a, ast.Starred) for a in args):
+                return ast.copy_location(ast.Compare(left=args[0], ops=[self.OPS[nm.split(".", 1)[1]]()], comparators=[args[1]]), node)
+        return node
+
+
+class _TrueAnd(ast.NodeTransformer):
+    """True and x -> x ; flattens nested conjunctions"""
+
+    def visit_BoolOp(self, node):
+        self.generic_visit(node)
+        if isinstance(node.op, ast.And):
+            vals = []
+            for v in node.values:
+                if isinstance(v, ast.Constant) and v.value is True:
+                    continue
+                if isinstance(v, ast.BoolOp) and isinstance(v.op, ast.And):
+                    vals += v.values
+                else:
+                    vals.append(v)
+            if not vals:
+                return ast.copy_location(ast.Constant(value=True), node)
+            if len(vals) == 1:
+                return vals[0]
+            node.values = vals
+        return node
+
+
 class _Beta(ast.NodeTransformer):
     """(lambda a, b: body)(x, y) -> body[a := x, b := y]  when every argument is simple or used at most once"""
 
@@ -859,6 +898,19 @@ class Unroller(ast.NodeTransformer):
 
     def visit_Call(self, node):
         self.generic_visit(node)
+        if ast.unparse(node.func) in ("functools.reduce", "reduce") and len(node.args) == 3 and not node.keywords and isinstance(node.args[0], ast.Lambda) and len(node.args[0].args.args) == 2 and _simple(node.args[0]) and _simple(node.args[2]):
+            # reduce(lambda acc, row: E, TABLE, init): E applied row after row
+            t = self.table(node.args[1])
+            if t and t[0] == "rows" and 1 <= len(t[1]) <= MAX_ROWS:
+                lam = node.args[0]
+                a_, r_ = [x.arg for x in lam.args.args]
+                uses = sum(1 for x in ast.walk(lam.body) if isinstance(x, ast.Name) and x.id == a_)
+                if uses <= 1:
+                    acc = node.args[2]
+                    for row in t[1]:
+                        acc = _AttrOps().visit(_Subst({a_: acc, r_: row}).visit(copy.deepcopy(lam.body)))
+                    self.count += 1
+                    return ast.copy_location(_TrueAnd().visit(acc), node)
         if isinstance(node.func, ast.Name) and node.func.id == "all" and len(node.args) == 1 and not node.keywords and isinstance(node.args[0], ast.Call):
             # all(map(operator.eq, A, B)) over two tables of the same length: a_0 == b_0 and a_1 == b_1 ...
             mp = node.args[0]
@@ -1481,6 +1533,51 @@ def _flatten_private_bases(tree):
     return count
 
 
+def _attrgetters(tree):
+    """G = operator.attrgetter("a", "b") bound once at module level: G(x) -> (x.a, x.b)  (one name: x.a);
+    operator.eq(*(a, b)) / operator.eq(a, b) -> a == b (likewise ne, is_, is_not)."""
+    getters = {}
+    seen = {}
+    for st in tree.body:
+        if isinstance(st, ast.Assign) and len(st.targets) == 1 and isinstance(st.targets[0], ast.Name):
+            seen[st.targets[0].id] = seen.get(st.targets[0].id, 0) + 1
+            v = st.value
+            if isinstance(v, ast.Call) and ast.unparse(v.func) in ("operator.attrgetter", "attrgetter") and v.args and not v.keywords and all(isinstance(a, ast.Constant) and isinstance(a.value, str) and all(p_.isidentifier() for p_ in a.value.split(".")) for a in v.args):
+                getters[st.targets[0].id] = [a.value for a in v.args]
+    getters = {k: v for k, v in getters.items() if seen.get(k) == 1}
+    ops = {"eq": ast.Eq, "ne": ast.NotEq, "is_": ast.Is, "is_not": ast.IsNot, "lt": ast.Lt, "le": ast.LtE, "gt": ast.Gt, "ge": ast.GtE}
+    count = [0]
+
+    def chain(base, dotted):
+        e = base
+        for p_ in dotted.split("."):
+            e = ast.Attribute(value=e, attr=p_, ctx=ast.Load())
+        return e
+
+    class _G(ast.NodeTransformer):
+        def visit_Call(self, node):
+            self.generic_visit(node)
+            f = node.func
+            if isinstance(f, ast.Name) and f.id in getters and len(node.args) == 1 and not node.keywords and _simple(node.args[0]):
+                names = getters[f.id]
+                count[0] += 1
+                if len(names) == 1:
+                    return ast.copy_location(chain(copy.deepcopy(node.args[0]), names[0]), node)
+                return ast.copy_location(ast.Tuple(elts=[chain(copy.deepcopy(node.args[0]), n_) for n_ in names], ctx=ast.Load()), node)
+            nm = ast.unparse(f)
+            if nm.startswith("operator.") and nm.split(".", 1)[1] in ops and not node.keywords:
+                args = node.args
+                if len(args) == 1 and isinstance(args[0], ast.Starred) and isinstance(args[0].value, (ast.Tuple, ast.List)) and len(args[0].value.elts) == 2:
+                    args = args[0].value.elts
+                if len(args) == 2 and not any(isinstance(a, ast.Starred) for a in args):
+                    count[0] += 1
+                    return ast.copy_location(ast.Compare(left=args[0], ops=[ops[nm.split(".", 1)[1]]()], comparators=[args[1]]), node)
+            return node
+
+    _G().visit(tree)
+    return count[0]
+
+
 def _closure_factories(tree):
     """def make(a, b): def f(x): return E; return f   is a lambda factory: make(p, q) -> (lambda x: E[a := p, b := q]).
     Then  v = <lambda>  bound once in a function and used as  set(map(v, it)) / list(map(v, it)) / v(arg)  is applied:
@@ -1560,6 +1657,7 @@ def _closure_factories(tree):
 def normalise(tree):
     """unroll table-driven loops and fold constant getattr / setattr; returns (tree, number of loops unrolled)"""
     _flatten_private_bases(tree)
+    _attrgetters(tree)
     _closure_factories(tree)
     _collect_records(tree)
     _iterate_until(tree)
